@@ -184,6 +184,27 @@ fn scenario(limit: usize, kinds: &[End], reverse: bool) -> Result<Res, String> {
             return fail("limit-while-opening", p);
         }
     }
+    // clients that connect while every slot is taken, send nothing and give up while still queued
+    // must neither take nor return a slot
+    if kinds.iter().any(|k| matches!(k, End::Close | End::Reset)) && conns.iter().filter(|c| c.alive && c.served).count() == limit {
+        for k in [End::Close, End::Reset] {
+            if !kinds.contains(&k) {
+                continue;
+            }
+            if let Ok(mut q) = w.connect() {
+                if k == End::Close {
+                    q.close(&w);
+                } else {
+                    q.abort(&w);
+                }
+                events += 1;
+            }
+        }
+        refresh(&w, &mut conns);
+        if let Some(p) = check_served(limit, &conns, "after silent queued clients gave up") {
+            return fail("limit-after-queued-client-left", p);
+        }
+    }
     let order: Vec<usize> = if reverse { (0..kinds.len()).rev().collect() } else { (0..kinds.len()).collect() };
     for i in order {
         let kind = kinds[i];
